@@ -1243,7 +1243,11 @@ func recordsProtocol(c *Ctx, rule string) {
 // never assigned from "the object processed last": that is C03's effect
 // table, read here as independence from the enumeration order.
 func ruleC09EffectsBorrowed(c *Ctx) {
-	c.RuleAlias = map[string]string{"C03.effects": "C09.effects"}
+	c.RuleAlias = map[string]string{"C03.effects": "C09.effects", "C04.descend": "C09.combine"}
 	defer func() { c.RuleAlias = nil }()
 	ruleC03Effects(c)
+	// combining a finished subtree into its parent must look at the child
+	// only: a guard on what the parent has accumulated so far makes the
+	// result depend on the order of the entries
+	ruleC04Descend(c)
 }
